@@ -94,9 +94,12 @@ class Harness(cm.BaseA):
 
     def configs(self, tier):
         out = []
-        for asplit in (True, False):
+        for asplit in (True, False, "deepcopy", "copy"):
+            clone = asplit if isinstance(asplit, str) else None
+            asplit = True if clone else asplit
             out.append(
                 {
+                    "clone": clone,  # "deepcopy" / "copy": labware and worklists are replaced by copies of themselves before every operation
                     "labware": cm.W1() + [dict(cm.plate("P2", 2, 3, 10, 200, 100), label="P")],
                     "worklists": {
                         "e": {"cls": "EvoWorklist", "max_volume": 50, "auto_split": asplit},
